@@ -28,7 +28,7 @@ CHECKS = {
         technique='reference-model + metamorphic monitor: updates of the pastified online monitor vs offline '
                   'robustness of the original formula on each prefix, delayed by a harness-computed horizon',
         text='Exploration: generated bounded-future formulas (h<=12) x traces; every update i>=h compared. Nothing '
-             'is masked: the former open finding D-past-over-future was repaired for discrete time (895bb5b) and '
+             'is masked: the former open finding D-past-over-future was repaired for discrete time (b0751cf) and '
              'its classifier deleted, so any disagreement is a VIOLATION.',
         note='Trusted base: ref_discrete.py, harness horizon computation (lang.horizon).',
         ref='DESIGN.md §7 C03'),
